@@ -683,9 +683,11 @@ class Interp:
             self._invalidate(txt, s)
         elif isinstance(t, ast.Attribute):
             base = None
-            if txt not in s.env:
+            if txt not in s.env or self.heap:
                 for _s, b in self.expr(t.value, s, fork=False):
                     base = b
+            if isinstance(base, M.ClassInfo) and self.heap:
+                s.env['__cls:%s.%s' % (base.fullname, t.attr)] = v        # Class.attr = v, whatever name the class goes by here
             setter = None
             if self.heap and isinstance(base, Obj) and isinstance(base.cls, M.ClassInfo) and self.model is not None \
                and self.inline_depth > 0 and len(self._inline_stack) < self.inline_depth:
@@ -1895,6 +1897,20 @@ class Interp:
             return v
         return TOP
 
+    def _dynamic_class_attr(self, cls, attr, s):
+        """(value,) of a class attribute assigned by the interpreted code (Class.attr = v), looked up along the MRO; None otherwise."""
+        if not self.heap or self.model is None or not any(k.startswith('__cls:') for k in s.env):
+            return None
+        for k in self.model.mro(cls):
+            if not isinstance(k, M.ClassInfo):
+                continue
+            key = '__cls:%s.%s' % (k.fullname, attr)
+            if key in s.env:
+                return (s.env[key],)
+            if attr in k.assigns or attr in k.methods:
+                return None
+        return None
+
     def getattr(self, base, attr, n, s):
         m = self.model
         if isinstance(base, Inst) and isinstance(base.cls, M.ClassInfo) and m is not None:
@@ -1911,6 +1927,9 @@ class Interp:
                and (m is None or not isinstance(base.cls, M.ClassInfo) or m.find_method(base.cls, attr) is None):
                 return ('boundmethod', base.attrs['__dict'], attr)
             if isinstance(base.cls, M.ClassInfo) and m is not None:
+                dyn = self._dynamic_class_attr(base.cls, attr, s)
+                if dyn is not None:
+                    return dyn[0]
                 v = m.class_const(base.cls, attr)
                 if M.is_unknown(v):
                     v = self._class_level_object(base.cls, attr)
@@ -1934,6 +1953,9 @@ class Interp:
             return TOP
         if isinstance(base, (M.ClassInfo, M.ModuleInfo)) and m is not None:
             if isinstance(base, M.ClassInfo):
+                dyn = self._dynamic_class_attr(base, attr, s)
+                if dyn is not None:
+                    return dyn[0]
                 v = m.class_const(base, attr)
                 if not M.is_unknown(v):
                     return v
@@ -2268,6 +2290,17 @@ class Interp:
                 else:
                     out.append((k, [item]))
             return (Iter([(k, Iter(g)) for k, g in out]),)
+        if (ext in ('staticmethod',) or (isinstance(n.func, ast.Name) and n.func.id == 'staticmethod' and 'staticmethod' not in s.env)) and len(args) == 1 and not kwargs:
+            return (args[0],)                  # staticmethod(f) in a class body: reached through an instance it is f itself
+        if ext in ('collections.deque', 'deque') and len(args) <= 1 and set(kwargs) <= {'maxlen'}:
+            items = self._seq_in(args[0], s) if args else []
+            if items is None:
+                self.imprecise.append('deque(...) over items that are not determined (line %s)' % n.lineno)
+                return (TOP,)
+            ml = kwargs.get('maxlen')
+            if ml is not None and not isinstance(ml, int):
+                return (TOP,)
+            return (list(items) if ml is None else (list(items)[-ml:] if ml else []),)
         if ext in ('collections.namedtuple', 'namedtuple') and len(args) >= 2 and isinstance(args[0], str) and _plain(args[1]) and all(_plain(v) for v in kwargs.values()):
             import collections as _coll
             try:
@@ -3143,7 +3176,8 @@ class Interp:
         if ak is not None:
             args, kwargs = ak
         else:
-            args = [self.ev(a, s) for a in n.args]
+            self.imprecise.append('the arguments of %s(...) are spread from a value that is not determined (line %s)' % (fname[:50], n.lineno))
+            args = [self.ev(a, s) for a in n.args if not isinstance(a, ast.Starred)]
             kwargs = {}
             for k in n.keywords:
                 v = self.ev(k.value, s)
